@@ -36,6 +36,19 @@ fn main() {
     let sizes: Vec<usize> = if quick { vec![33, 65] } else { vec![33, 64, 65, 129] };
     let big = ohmc::props::structured::shapes_at_labelled(&sizes, false);
     ctx.run_slice(Slice::new(format!("selected-subgraphs-of-large-hosts[sizes {:?}: {} hosts x 32 inclusions]", sizes, big.len()), big.len() as u64, |i, loc| check_selected_subgraphs::<B>(&big[i as usize].1, loc)).heavy());
+    // four hyperedges with every profile of source and target arities in {0,1,2}^4 x {0,1,2}^4 on three nodes (the incidences
+    // follow a fixed pattern): the fixed menu of inclusions, identity included
+    ctx.run_slice(Slice::new("selected-subgraphs-of-arity-profile-hosts[4 hyperedges, arities {0,1,2}^8]", 6561, |i, loc| {
+        let mut r = i;
+        let mut edges = vec![];
+        for e in 0..4usize {
+            let (a, b) = ((r % 3) as usize, ((r / 3) % 3) as usize);
+            r /= 9;
+            edges.push(ohmc_core::plain::PEdge { label: 0u8, src: (0..a).map(|k| (e + k) % 3).collect(), tgt: (0..b).map(|k| (e + 2 * k + 1) % 3).collect() });
+        }
+        let h = ohmc_core::plain::POpen::<u8, u8> { nodes: vec![0; 3], edges, s: vec![], t: vec![] };
+        check_selected_subgraphs::<B>(&h, loc)
+    }).heavy());
     let s3 = Spec { e_min: 3, ..Spec::hyper(3, 3, 1, 1, 1) };
     let u3 = s3.universe();
     ctx.run_slice(Slice::new(format!("subgraphs[{}]", s3.name()), u3.count(), |i, loc| check_subgraphs::<B>(&u3.get_open(i), loc)));
